@@ -6,6 +6,8 @@
 //
 // Case line:   run|guns <cancel> <pool> [<pool> ...]   (guns: same run, judged on gun Close bookkeeping)
 //
+//	fact <numOut> <shape> <k> <calls>       (a factory built by the real plugin registry, called outside the engine: plugfactory.go)
+//
 //	<cancel> = none | pre | after | shoot<k> | timed<us> | recv<k>
 //	           pre: ctx cancelled before Run; shoot<k>: cancel() from inside pool 0's k-th Shoot,
 //	           which then blocks until Run has returned; timed<us>: cancel() from another
@@ -1034,6 +1036,9 @@ func history(all []observer.LoggedEntry, npools int, plans []poolPlan) []string 
 
 func runCase(line string) string {
 	f := strings.Split(line, " ")
+	if f[0] == "fact" {
+		return runFact(f)
+	}
 	if len(f) < 3 || (f[0] != "run" && f[0] != "guns") {
 		return "unknown-case"
 	}
@@ -1101,6 +1106,9 @@ func runCase(line string) string {
 		pc.NewGun = func() (core.Gun, error) {
 			first := pm.factCalls[0].Add(1) == 1
 			g, err := gunFactory()
+			if g == nil && err == nil { // nothing and no error (recorded in F): an inert gun keeps the process alive
+				g = (*plugGun)(nil)
+			}
 			if err != nil && first {
 				log.Info("verif-pre-fail", zap.Int("p", idx), zap.String("what", "gun"))
 			}
@@ -1112,6 +1120,9 @@ func runCase(line string) string {
 		pc.NewRPSSchedule = func() (core.Schedule, error) {
 			first := pm.factCalls[1].Add(1) == 1
 			s, err := schedFactory()
+			if s == nil && err == nil { // nothing and no error (recorded in F): a finished schedule keeps the process alive
+				s = (*plugSched)(nil)
+			}
 			if err != nil && first && pm.plan.shared {
 				log.Info("verif-pre-fail", zap.Int("p", idx), zap.String("what", "sched"))
 			}
@@ -1661,7 +1672,15 @@ func gen(r *vh.Rand, tier string) []string {
 			guns = append(guns, "guns"+l[3:])
 		}
 	}
-	return append(out, guns...)
+	out = append(out, guns...)
+	// factories of both factory types (with / without an error result) built by the real plugin registry from every
+	// constructor shape, called outside the engine; the constructor / its config fill fails at the 1st, 2nd, 3rd call or never
+	for _, numOut := range []int{1, 2} {
+		for _, shape := range []string{"ie", "pe", "cpe", "cie", "cp", "fpe", "fie", "fp", "i1", "p1", "pen", "cien", "cpef", "cpf"} {
+			out = append(out, fmt.Sprintf("fact %d %s %d 3", numOut, shape, r.PickInt([]int{0, 1, 2, 9})))
+		}
+	}
+	return out
 }
 
 func main() {
